@@ -38,11 +38,20 @@ def run(ck, F, tier):
     ck.rule("F4", "field effects of the two flooding passes")
     ck.rule("F5", "layered order, in-place update and initialisation")
 
+    from ..decmodel import phase_roles, decode_contracts
+    fl_roles = phase_roles(F, FL)
+
+    def fl(role):
+        ps = [p for p, r in fl_roles.items() if r == role]
+        if len(ps) != 1:
+            raise AnalysisError("flooding decoder: expected exactly one %s step, found %s" % (role, fl_roles))
+        return ps[0]
+    FL_CHECK, FL_VAR, FL_INIT = fl("check"), fl("variable"), fl("init")
     # ---- F1: flooding sends ---------------------------------------------------------------------
     def sends(calls):
         return [s for s in t.sites if s["kind"] == "contract" and s["detail"].endswith("::send")]
 
-    b, t, _, calls = trace_fn(F, FL + "process_check_nodes", ("self",))
+    b, t, _, calls = trace_fn(F, FL_CHECK, ("self",))
     ss = sends(calls)
     arith = [s for s in calls if s["detail"] == ARI + "send_check_messages"]
     ok = len(ss) == 1 and len(arith) == 1
@@ -63,7 +72,7 @@ def run(ck, F, tier):
         why = "for (c, messages) in variable_messages.per_destination.enumerate(): send_check_messages(messages, |msg| %r.send(%r, %r, %r))" % (store, src, dst, val)
     ck.inst("F1", "flooding:check-pass", ok, b.span, why + " ; required check_messages.send(c, msg.dest, msg.value)")
 
-    b, t, _, calls = trace_fn(F, FL + "process_variable_nodes", ("self",))
+    b, t, _, calls = trace_fn(F, FL_VAR, ("self",))
     ss = sends(calls)
     arith = [s for s in calls if s["detail"] == ARI + "send_var_messages"]
     ok = len(ss) == 1 and len(arith) == 1
@@ -97,7 +106,7 @@ def run(ck, F, tier):
                "messages, |msg| %r.send(%r, %r, %r)) [out %s, args %s]" % (shape, store, src, dst, val, out_ok, llr_ok))
     ck.inst("F1", "flooding:variable-pass", ok, b.span, why + " ; required variable_messages.send(v, msg.dest, msg.value)")
 
-    b, t, _, calls = trace_fn(F, FL + "initialize", ("self", "llrs"))
+    b, t, _, calls = trace_fn(F, FL_INIT, ("self", "llrs"))
     ss = sends(calls)
     ok = len(ss) == 1
     why = "expected one send in initialize"
@@ -179,21 +188,21 @@ def run(ck, F, tier):
         ck.inst("F2", ctor.split("::")[1] + ":tags", ok, fb.span, "each slot is tagged with the adjacency entry (%s = *j.borrow()) and a default value" % tagf)
 
     # ---- F3 -----------------------------------------------------------------------------------------
-    for sched, prefix, want in (("flooding", FL, ["process_check_nodes", "process_variable_nodes", "check_llrs"]),
-                                ("layered", HL, ["process_check_nodes", "check_llrs"])):
-        b, t, _, calls = trace_fn(F, prefix + "decode", ("self", "llrs", "max_iterations"))
+    for sched, prefix, want in (("flooding", FL, ["check", "variable", "check_llrs"]),
+                                ("layered", HL, ["check", "check_llrs"])):
+        roles = {p.rsplit("::", 1)[-1]: r for p, r in phase_roles(F, prefix).items()}
+        b, t, _, calls = trace_fn(F, prefix + "decode", ("self", "llrs", "max_iterations"), contracts=decode_contracts(F, prefix))
+        calls = [s for s in calls if not s["detail"].startswith(("decoder::arithmetic::", "sparse::"))]
         inloop = [s for s in calls if s["loops"] and not s["detail"].endswith("hard_decisions")]
-        names = [s["detail"].rsplit("::", 1)[-1] for s in inloop]
-        base_guards = None
-        for s in calls:
-            if s["detail"].endswith("::initialize"):
-                base_guards = repr(s["guards"])
+        names = [roles.get(s["detail"].rsplit("::", 1)[-1], s["detail"].rsplit("::", 1)[-1]) for s in inloop]
+        init = [s for s in calls if roles.get(s["detail"].rsplit("::", 1)[-1]) == "init"]
+        base_guards = repr(init[0]["guards"]) if init else None
         uncond = all(repr(s["guards"]) == base_guards for s in inloop)
-        init = [s for s in calls if s["detail"].endswith("::initialize")]
         init_ok = len(init) == 1 and not init[0]["loops"] and any("check_llrs" in repr(g) and not p for g, p in init[0]["guards"]) \
-            and calls.index(init[0]) < calls.index(inloop[0])
+            and bool(inloop) and calls.index(init[0]) < calls.index(inloop[0])
         ck.inst("F3", sched + ":phase-order", names == want and uncond and init_ok, b.span,
-                "per iteration %s (unconditional: %s); initialize once after the failed shortcut and before the loop: %s ; required %s" % (names, uncond, init_ok, want))
+                "per iteration %s (unconditional: %s); initialisation once after the failed shortcut and before the loop: %s ; required %s "
+                "(steps are classified by the store they write, not by name)" % (names, uncond, init_ok, want))
 
     # ---- F4 -----------------------------------------------------------------------------------------
     def fields(path):
@@ -201,42 +210,51 @@ def run(ck, F, tier):
         r = sorted(f for f, d in u.items() if "r" in d)
         w = sorted(f for f, d in u.items() if "w" in d)
         return r, w
-    r, w = fields(FL + "process_check_nodes")
-    ck.inst("F4", "check-pass-effects", r == ["variable_messages"] and w == ["arithmetic", "check_messages"], F.body(FL + "process_check_nodes").span,
+    r, w = fields(FL_CHECK)
+    ck.inst("F4", "check-pass-effects", r == ["variable_messages"] and w == ["arithmetic", "check_messages"], F.body(FL_CHECK).span,
             "reads %s, writes %s ; required reads [variable_messages], writes [arithmetic (scratch), check_messages]" % (r, w))
-    r, w = fields(FL + "process_variable_nodes")
+    r, w = fields(FL_VAR)
     ck.inst("F4", "variable-pass-effects", r == ["check_messages", "input_llrs"] and w == ["arithmetic", "output_llrs", "variable_messages"],
-            F.body(FL + "process_variable_nodes").span,
+            F.body(FL_VAR).span,
             "reads %s, writes %s ; required reads [check_messages, input_llrs], writes [arithmetic (scratch), output_llrs, variable_messages]" % (r, w))
 
     # ---- F5 -----------------------------------------------------------------------------------------
-    b, t, _, calls = trace_fn(F, HL + "process_check_nodes", ("self",))
+    hl_roles = phase_roles(F, HL)
+    hl_check = [p for p, r in hl_roles.items() if r == "check"]
+    hl_init = [p for p, r in hl_roles.items() if r == "init"]
+    if len(hl_check) != 1 or len(hl_init) != 1:
+        raise AnalysisError("layered decoder: expected one check-processing step and one initialisation step, found %s" % hl_roles)
+    b, t, _, calls = trace_fn(F, hl_check[0], ("self",))
     up = [s for s in calls if s["detail"] == ARI + "update_check_messages_and_vars"]
     ok = len(up) == 1 and len(calls) == 1
     if ok:
         s = up[0]
         lp = s["loops"]
+        # one loop over the whole per-check store in storage order (a plain elems() description: no rev/skip/step_by/filter),
+        # handing each check's own messages and the one shared LLR vector to the update
         ok = len(lp) == 1 and lp[0][0] == "iter" and lp[0][2] == ("elems", var("self.check_messages.per_source")) \
             and elem_of(s["vals"][1]) == var("self.check_messages.per_source") and s["vals"][2] == var("self.llrs") and not s["guards"]
-        fors = [n for n in walk(b.value) if n.get("k") == "for"]
-        it = strip(fors[0]["iter"]) if fors else {}
-        ok = ok and it.get("k") == "mcall" and it.get("m") == "iter_mut"
     ck.inst("F5", "layered:row-order-in-place", ok, b.span,
-            "for messages in check_messages.per_source.iter_mut() (storage order, no rev/skip/step_by): update_check_messages_and_vars(messages, &mut self.llrs)")
-    b, t, _, calls = trace_fn(F, HL + "initialize", ("self", "llrs"))
+            "for messages in check_messages.per_source (storage order, no rev/skip/step_by): update_check_messages_and_vars(messages, &mut self.llrs)")
+    b, t, _, calls = trace_fn(F, hl_init[0], ("self", "llrs"))
     asg = [e for e in t.events if e.callee == "<assign>"]
     ok = len(asg) == 2
     if ok:
         a1, a2 = asg
+        if elem_of(a1.args[0]) != var("self.llrs"):
+            a1, a2 = a2, a1
         q = repr(a1.args[1])
-        ok1 = elem_of(a1.args[0]) == var("self.llrs") and q.startswith(ARI + "llr_to_var_llr(self.arithmetic, " + ARI + "input_llr_quantize(self.arithmetic, elem(") and "llrs" in q
-        fors = [n for n in walk(b.value) if n.get("k") == "for"]
-        tr = Tracer(F, "NONE")
-        d = tr.iter_desc(fors[0]["iter"], {b.params[0]["name"]: var("self"), b.params[1]["name"]: var("llrs")}) if fors else None
+        ok1 = elem_of(a1.args[0]) == var("self.llrs") and q.startswith(ARI + "llr_to_var_llr(self.arithmetic, " + ARI + "input_llr_quantize(self.arithmetic, elem(") and "llrs" in q \
+            and not a1.guards
+        d = a1.loops[0][2] if len(a1.loops) == 1 and a1.loops[0][0] == "iter" else None
         zip_ok = d is not None and d[0] == "zip" and d[1] == ("elems", var("self.llrs")) and d[2] == ("iterdesc", ("elems", var("llrs")))
         t2 = single_atom(a2.args[0])
-        ok2 = t2 is not None and atom_fn(t2) == ".value" and len(a2.loops) == 2 and a2.loops[0][2] == ("elems", var("self.check_messages.per_source")) \
-            and a2.args[1] == app("std::default::Default::default") and not a2.guards
+        ok2 = False
+        if t2 is not None and atom_fn(t2) == ".value" and len(a2.loops) == 2 and not a2.guards and a2.args[1] == app("std::default::Default::default"):
+            l0, l1 = a2.loops
+            ok2 = l0[0] == "iter" and l0[2] == ("elems", var("self.check_messages.per_source")) and isinstance(l0[1], str) and \
+                l1[0] == "iter" and l1[2] == ("elems", app("elem", var("self.check_messages.per_source"), var(l0[1]))) and isinstance(l1[1], str) and \
+                atom_args(t2)[0] == app("elem", app("elem", var("self.check_messages.per_source"), var(l0[1])), var(l1[1]))
         ok = ok1 and zip_ok and ok2
     ck.inst("F5", "layered:initialize", ok, b.span,
             "llrs[i] = llr_to_var_llr(input_llr_quantize(y[i])) by position (zip of the two whole slices) and every check message value reset to Default")
